@@ -13,6 +13,7 @@ mod facts;
 mod gen_text;
 mod impls;
 mod rsa_pool;
+mod rsa4k_pool;
 mod util;
 
 use std::io::{BufRead, Write};
